@@ -182,3 +182,79 @@ def escape_json_strings(text, rng, p=0.35):
             i += 1
         return '"' + "".join(out) + '"'
     return _re.sub(r'"((?:[^"\\]|\\.)*)"', esc, text)
+
+
+def json_lexical_corpus(rng, n_random=120):
+    """byte strings around the edges of JSON's grammar as serde_json implements it (white space, literals, the number
+    grammar and the integer / floating-point split, string escapes and surrogates, raw UTF-8 validation, separators,
+    duplicate and unsorted keys, the nesting limit, content after the document) plus random documents and random
+    one-byte damages of them: the input of Ctx.json_lexical (compared with Model/JsonText.v)"""
+    import json as _json
+    c = []
+    # white space
+    for w in (b" ", b"\t", b"\n", b"\r", b"\r\n \t", b"\x0b", b"\x0c", b"\xc2\xa0", b"\xef\xbb\xbf", b"\x00", b"\xe2\x80\xa8", b"\x85"):
+        c += [w + b"1", b"1" + w, b"[" + w + b"1" + w + b"," + w + b"2" + w + b"]", b"{" + w + b'"a"' + w + b":" + w + b"1" + w + b"}", w]
+    # literals
+    c += [b"true", b"false", b"null", b"True", b"NULL", b"nul", b"truee", b"tru e", b"t", b"f", b"n", b"nulll", b"[true,false,null]", b"[truefalse]", b"nil", b"undefined"]
+    # numbers
+    nums = ["0", "-0", "00", "01", "-01", "1.", ".5", "-.5", "1.e3", "1e", "1e+", "1e-", "1E+5", "1e+05", "1e-5", "1E5", "1.5e300", "1e308", "1.7976931348623157e308",
+            "1.7976931348623158e308", "1.7976931348623159e308", "1e309", "-1e309", "1e400", "-1e400", "1e-400", "-1e-400", "0e999999999", "0.0e-999999999", "-0e5", "0E+0",
+            "1e999999999999999999999", "1e-999999999999999999999", "0e999999999999999999999", "18446744073709551615", "18446744073709551616", "18446744073709551614",
+            "-9223372036854775808", "-9223372036854775809", "-9223372036854775807", "9223372036854775807", "9223372036854775808", "-18446744073709551615",
+            "123456789012345678901234567890", "-123456789012345678901234567890", "1.0", "1.50", "100e-2", "0.1", "0.5", "4.9e-324", "2.5e-324", "2.4e-324", "5e-324", "3e-324",
+            "2.2250738585072014e-308", "2.2250738585072011e-308", "+1", "0x10", "1_000", "NaN", "Infinity", "-Infinity", "1e5x", "-", "- 1", "--1", ".", "1.2.3", "1e1.5", "1e1e1",
+            "9" * 400, "0." + "0" * 400 + "1", "1" + "0" * 400, "1" + "0" * 308, "1" + "0" * 309, "0." + "9" * 30, "1." + "0" * 50, "123456789.123456789e-9", "-1.5", "1.5e+3", "12e-1",
+            "9007199254740993", "9007199254740993.0", "1.00000000000000011102230246251565404236316680908203125", "1.0000000000000002", "0.30000000000000004", "1e23", "8.5e-5",
+            "17976931348623157" + "0" * 292, "17976931348623159" + "0" * 292, "4294967296", "4294967295", "255", "256", "65535", "65536", "1e0", "1e00", "1E-0"]
+    for n_ in nums:
+        c += [n_.encode(), b"[" + n_.encode() + b"]", b'{"v":' + n_.encode() + b"}"]
+    # strings
+    strs = [b'""', b'"a"', b'"\\"\\\\\\/\\b\\f\\n\\r\\t"', b'"\\u0000"', b'"\\u001f"', b'"\\u0041\\u00e9\\u20ac"', b'"\\u00E9\\u00e9"', b'"\\a"', b'"\\x41"', b'"\\U0041"', b'"\\u12"', b'"\\u12g4"',
+            b'"\\ud800"', b'"\\uD800\\uDC00"', b'"\\udbff\\udfff"', b'"\\uDC00\\uD800"', b'"\\uD800\\u0041"', b'"\\uD800x"', b'"\\ud83d\\ude00"', b'"\\uD83D\\ude00 \\ud83d"', b'"\\uDC00"', b'"\\udfff"',
+            b'"\\uD800\\uD800"', b'"\\ud7ff\\ue000"', b'"\\uffff\\ufffe"', b'"\\u"', b'"\\', b'"abc', b'"', b'"\\"', b'"a\\', b"'a'", b'"a"b"', b'"\x7f"', b'"\xc3\xa9"', b'"\xe2\x82\xac"',
+            b'"\xf0\x9f\x98\x80"', b'"\xc0\x80"', b'"\xc1\xbf"', b'"\xc2"', b'"\xc2\x20"', b'"\xe0\x80\x80"', b'"\xe0\x9f\xbf"', b'"\xe0\xa0\x80"', b'"\xed\x9f\xbf"', b'"\xed\xa0\x80"', b'"\xed\xbf\xbf"',
+            b'"\xee\x80\x80"', b'"\xef\xbf\xbf"', b'"\xf0\x80\x80\x80"', b'"\xf0\x8f\xbf\xbf"', b'"\xf0\x90\x80\x80"', b'"\xf4\x8f\xbf\xbf"', b'"\xf4\x90\x80\x80"', b'"\xf5\x80\x80\x80"', b'"\xf8\x88\x80\x80\x80"',
+            b'"\xff"', b'"\xfe"', b'"\x80"', b'"\xbf"', b'"\xe2\x82"', b'"\xf0\x9f\x98"', b'"\xc3\\u00a9"', b'"\\u00c3\xa9"', b'"\xe2\x82\\u00ac"', b'"a\xc3"', b'"\xc3\xa9\xa9"', b'"\xc3\xc3\xa9"']
+    for b_ in range(0x20):
+        strs.append(b'"a' + bytes([b_]) + b'b"')
+    for e_ in b"abcdefghijklmnopqrstuvwxyz0/\"\\":
+        strs.append(b'"\\' + bytes([e_]) + b'"')
+    for s_ in strs:
+        c += [s_, b"[" + s_ + b"]", b"{" + s_ + b":1}"]
+    # separators, arrays, objects
+    c += [b"[]", b"[ ]", b"[1,]", b"[,1]", b"[1 2]", b"[1,,2]", b"[1", b"[1,", b"]", b"[]]", b"[[]", b"{}", b"{ }", b'{"a":1,}', b"{,}", b'{"a"}', b'{"a":}', b"{a:1}", b"{'a':1}", b'{"a":1 "b":2}',
+          b'{"a":1,"a":2}', b'{"a":1,"b":2,"a":3}', b'{"a":{"x":1,"x":2},"a":{"x":3}}', b'{"b":1,"a":2,"":3,"ab":4,"B":5,"\xc3\xa9":6,"z":7,"\\u00e9":8,"a\\u0000":9,"\xf0\x9f\x98\x80":10,"\xef\xbf\xbf":11}',
+          b'{"a":1;"b":2}', b'{"a"=1}', b'{1:1}', b'{null:1}', b'{"a":1}}', b'{"a":[}', b'[{]}', b'{"a":1,"b"}', b'{"a" :1 , "b": [ ] }', b'[[],[[]],{},{"a":{}}]', b'{"":""}', b'{"":{"":{"":[]}}}',
+          b'{"k":1,"K":2,"k ":3," k":4,"k\\u0020":5}', b'{"\\u0061":1,"a":2}', b'{"a":2,"\\u0061":1}', b'{"\\ud83d\\ude00":1,"\xf0\x9f\x98\x80":2}', b'{"\xef\xbc\xa1":1,"\xf0\x90\x80\x80":2,"\xee\x80\x80":3}']
+    # nesting limit
+    for d_ in (1, 2, 126, 127, 128, 129, 200):
+        c += [b"[" * d_ + b"]" * d_, b'{"a":' * d_ + b"1" + b"}" * d_, (b'[{"a":' * d_)[:3 * d_ + 3 * d_] + b"0" + b"}]" * d_, b"[" * d_ + b"1" + b"]" * d_, b"[" * d_]
+    c += [b"[" * 63 + b'{"a":' * 64 + b"[]" + b"}" * 64 + b"]" * 63, b"[" * 64 + b'{"a":' * 64 + b"[]" + b"}" * 64 + b"]" * 64, b"[" * 126 + b'""' + b"]" * 126, b"[" * 127 + b'{}' + b"]" * 127,
+          b"[" * 126 + b'{}' + b"]" * 126, b"[" + b"[],[1,[2,[3]]]," * 30 + b"0]"]
+    # content after the document
+    c += [b"1 2", b"{} {}", b"[]x", b"null\x00", b"1/*c*/", b"//c\n1", b"/**/1", b"1,", b"1]", b"1}", b'"a""b"', b"[] []", b"{}\n\n\t ", b"1\n", b"true false", b"", b"   ", b"\n"]
+
+    # random documents, with random white space, and one-byte damages of them
+    def rand_val(depth):
+        r = rng.random()
+        if depth > 3 or r < 0.35:
+            k = rng.randrange(8)
+            if k == 0:
+                return rng.choice([None, True, False])
+            if k == 1:
+                return rng.choice([0, 1, -1, rng.randrange(-(1 << 63), 1 << 64), rng.randrange(1 << 70), -rng.randrange(1 << 70)])
+            if k == 2:
+                return rng.choice([0.5, 1.5e10, -2.25, 1e-7, 123456.789, float(rng.randrange(1 << 53)), rng.random()])
+            return "".join(rng.choice(["a", "b", "0x", "é", "€", "\U0001f600", '"', "\\", "\n", "\u0000", " ", "\ud7ff", "\ue000"]) for _ in range(rng.randrange(6)))
+        if r < 0.65:
+            return [rand_val(depth + 1) for _ in range(rng.randrange(4))]
+        return {("" if rng.random() < 0.1 else "".join(rng.choice("abAB é\U0001f600\"") for _ in range(rng.randrange(1, 4)))): rand_val(depth + 1) for _ in range(rng.randrange(4))}
+    for _ in range(n_random):
+        t = _json.dumps(rand_val(0), ensure_ascii=rng.random() < 0.5, separators=rng.choice([(",", ":"), (", ", ": "), (" ,\n", "\t:\r")]))
+        b_ = t.encode("utf8")
+        c.append(b_)
+        if b_ and rng.random() < 0.7:
+            i = rng.randrange(len(b_))
+            k = rng.randrange(3)
+            c.append(b_[:i] + b_[i + 1:] if k == 0 else b_[:i] + bytes([rng.choice(b' ,:"\\[]{}0-e.u\x00\xc3')]) + b_[i:] if k == 1 else b_[:i] + bytes([rng.randrange(256)]) + b_[i + 1:])
+    return list(dict.fromkeys(c))
